@@ -29,10 +29,12 @@ import lib
 
 ID = 'C07'
 PROPS_FILE = 'Props/C07.v'
-MODEL_FILES = ['Fortran/FText.v', 'Fortran/FSem.v', 'Fortran/FSolve.v', 'Fortran/FortranF.v']
+MODEL_FILES = ['Fortran/FText.v', 'Fortran/FSem.v', 'Fortran/FSolve.v', 'Fortran/FortranF.v', 'Fortran/FParse.v']
 K_NAME = ('K_fortran: (a) FSolve.w_evaluate/w_solve_t/w_solve over FSem.f_eval vs the gfortran-compiled module driven through the real '
           'FortranEngine methods; (b) Solver.solve_t_M / FSolve.py_solve over FSem.py_eval vs the class from fsic.build_model; '
-          '(c) extracted FText.rewrite/block/int_array_def/number_of/lag_of vs the text of build_fortran_definition')
+          '(c) extracted FText.rewrite/block/int_array_def/number_of/lag_of vs the text of build_fortran_definition; (d) extracted '
+          'FParse.block_matches: every generated Fortran statement, continuation lines joined, parses by the Fortran expression grammar to '
+          'the regrouped tree that (a) evaluates (text -> tree inside the model, per case)')
 RULE = ('C01-grammar programs of the common subset rendered from random syntax trees (+ - * / **, unary minus, parentheses, exp/log/max/min/abs, '
         'parameters, errors, lags/leads, integer and decimal literals, long sums that need continuation lines, up to 40 variables, blank-free runs at '
         'the wrap width 100/101+), 9 program families (lin tree trans lit powi bad long blow wrap) x random finite data (plus signed zeros, huge/tiny '
@@ -135,6 +137,64 @@ def render(n, sp=' '):
         return '%s(%s)' % (n[1], render(n[2], sp))
     if k == 'm':
         return '%s(%s, %s)' % (n[1], render(n[2], sp), render(n[3], sp))
+    raise AssertionError(n)
+
+
+def paren_tree(n):
+    """The tree with a ['par', .] node wherever render() writes a pair of parentheses: the tree of the TEXT (what a parser of the
+    rendered script / of the generated Fortran sees).  render(paren_tree(n)) == render(n)."""
+    k = n[0]
+    if k in ('v', 'p', 'e', 'i', 'd'):
+        return n
+    if k == 'par':
+        return ['par', paren_tree(n[1])]
+    if k == 'neg':
+        a = paren_tree(n[1])
+        return ['neg', ['par', a] if (nprec(n[1]) < 3 or n[1][0] == 'neg') else a]
+    if k == 'b':
+        op, a, b = n[1], n[2], n[3]
+        p = PREC[op]
+        ta, tb = paren_tree(a), paren_tree(b)
+        pa, pb = nprec(a), nprec(b)
+        if pa < p or (pa == p and op == '^'):
+            ta = ['par', ta]
+        if (pb < p and not (op == '^' and b[0] == 'neg')) or (pb == p and op != '^'):
+            tb = ['par', tb]
+        return ['b', op, ta, tb]
+    if k == 'f':
+        return ['f', n[1], paren_tree(n[2])]
+    if k == 'm':
+        return ['m', n[1], paren_tree(n[2]), paren_tree(n[3])]
+    raise AssertionError(n)
+
+
+def dec_parts(text):
+    """'0.125' -> (125, 3) ; '.5' -> (5, 1) ; '2.' -> (2, 0): mantissa and scale as FParse.lex computes them."""
+    ip, _dot, fp = text.partition('.')
+    return int((ip + fp) or '0'), len(fp)
+
+
+def s_prefix(n, row):
+    """The tree in the prefix notation the extraction driver reads (FParse.sexpr)."""
+    k = n[0]
+    if k == 'v':
+        return 'v %d %d' % (row[n[1]], n[2])
+    if k in ('p', 'e'):
+        return 'v %d 0' % row[n[1]]
+    if k == 'i':
+        return 'i %d' % n[1]
+    if k == 'd':
+        return 'd %d %d' % dec_parts(n[1])
+    if k == 'par':
+        return 'p ' + s_prefix(n[1], row)
+    if k == 'neg':
+        return 'n ' + s_prefix(n[1], row)
+    if k == 'b':
+        return 'b %s %s %s' % (n[1], s_prefix(n[2], row), s_prefix(n[3], row))
+    if k == 'f':
+        return '%s %s' % ({'abs': 'a', 'exp': 'e', 'log': 'l'}[n[1]], s_prefix(n[2], row))
+    if k == 'm':
+        return '%s %s %s' % ('M' if n[1] == 'max' else 'm', s_prefix(n[2], row), s_prefix(n[3], row))
     raise AssertionError(n)
 
 
@@ -529,6 +589,17 @@ def gen(rng, tier):
         else:
             c['t'] = 1
         cases.append(c)
+    # mixed outcomes in ONE solve: Y = Y * Y * X from 0.5 (converges: '.'), 2 (overflows at pass 10: 'S' / 'E' / 'F'), 0.99 (still moving
+    # at pass 12: 'F') — the status string, the list of return values and where each engine stops under every failures / errors policy
+    sq = {'eqs': [['Y', ['b', '*', ['b', '*', ['v', 'Y', 0], ['v', 'Y', 0]], ['v', 'X', 0]]]], 'family': 'mixed', 'style': ' '}
+    cases.append({'kind': 'text', 'prog': sq, 'script': script_of(sq)})
+    for ydata in ([0.5, 0.5, 2.0, 0.99, 0.5], [0.5, 0.99, 0.5, 2.0, 0.5], [2.0, 0.5, 0.99, 0.5, 2.0], [0.99, 2.0, 2.0, 0.5, 0.5]):
+        for er in ('skip', 'ignore', 'replace', 'raise'):
+            for fl in ('ignore', 'raise'):
+                for mx, mn in ((12, 0), (12, 3), (9, 0)):
+                    cases.append({'kind': 'run', 'prog': sq, 'script': script_of(sq), 'n': 5, 'entry': 'solve', 'start': None, 'end': None,
+                                  'data': {'Y': [lib.fhex(v) for v in ydata], 'X': [lib.fhex(1.0)] * 5},
+                                  'opts': dict(min_iter=mn, max_iter=mx, tol=lib.fhex(TOL), offset=0, failures=fl, errors=er, catch_first_error=(mx == 12))})
     for i in range(nprog):
         fam = FAMILIES[i % len(FAMILIES)]
         pr = gen_program(rng, fam)
@@ -824,6 +895,15 @@ def impl(case):
         mf, spanf = _instantiate(b.F, case)
         outf = _call(mf, spanf, case)
         obs['f'] = _observe(mf, names, outf)
+        if lib.jhash(case)[0] in '01234':
+            # a copy of a FortranEngine instance keeps the compiled ENGINE and behaves identically (oracle only)
+            m0, span0 = _instantiate(b.F, case)
+            mc = m0.copy()
+            mc.__dict__['_snaps'] = []
+            outc = _call(mc, span0, case)
+            oc = _observe(mc, names, outc)
+            obs['fcopy'] = {'same': same_obs(oc, obs['f']), 'engine': type(mc).ENGINE is b.F.ENGINE, 'orig_untouched': _observe(m0, names, ['ret', None])['vals'] == [case['data'][nm] for nm in names],
+                            'out': outc}
     return obs
 
 
@@ -855,34 +935,44 @@ def impl_text(case):
 # ===================================================================================================== Coq encoding (float part)
 PREAMBLE = '''From Coq Require Import PrimFloat ZArith List Bool.
 Import ListNotations.
-Require Import Fsic.Base.PyBase Fsic.Solver.Solver Fsic.Solver.SolverF Fsic.Fortran.FSem Fsic.Fortran.FSolve Fsic.Fortran.FortranF.
+Require Import Fsic.Base.PyBase Fsic.Solver.Solver Fsic.Solver.SolverF Fsic.Fortran.FSem Fsic.Fortran.FSolve Fsic.Fortran.FortranF Fsic.Fortran.FParse.
 Open Scope float_scope. Open Scope Z_scope.
 '''
 BINOP = {'+': 'OAdd', '-': 'OSub', '*': 'OMul', '/': 'ODiv', '^': 'OPow'}
 
 
-def c_expr(n, row):
-    import numpy as np
+def c_sexpr(n, row):
     k = n[0]
     if k == 'v':
-        return '(EVar %d%%nat %s)' % (row[n[1]], lib.cZ(n[2]))
+        return '(SVar %d%%nat %s)' % (row[n[1]], lib.cZ(n[2]))
     if k in ('p', 'e'):
-        return '(EVar %d%%nat 0)' % row[n[1]]
+        return '(SVar %d%%nat 0)' % row[n[1]]
     if k == 'i':
-        return '(EInt %s)' % lib.cZ(n[1])
+        return '(SInt %s)' % lib.cZ(n[1])
     if k == 'd':
-        return '(EDec %s %s)' % (lib.cfloat(lib.fhex(float(n[1]))), lib.cfloat(lib.fhex(float(np.float32(n[1])))))
+        return '(SDec %s %d%%nat)' % ((lambda ms: (lib.cZ(ms[0]), ms[1]))(dec_parts(n[1])))
     if k == 'par':
-        return '(EPar %s)' % c_expr(n[1], row)
+        return '(SPar %s)' % c_sexpr(n[1], row)
     if k == 'neg':
-        return '(ENeg %s)' % c_expr(n[1], row)
+        return '(SNeg %s)' % c_sexpr(n[1], row)
     if k == 'b':
-        return '(EBin %s %s %s)' % (BINOP[n[1]], c_expr(n[2], row), c_expr(n[3], row))
+        return '(SBin %s %s %s)' % (BINOP[n[1]], c_sexpr(n[2], row), c_sexpr(n[3], row))
     if k == 'f':
-        return '(%s %s)' % ({'abs': 'EAbs', 'exp': 'EExp', 'log': 'ELog'}[n[1]], c_expr(n[2], row))
+        return '(%s %s)' % ({'abs': 'SAbs', 'exp': 'SExp', 'log': 'SLog'}[n[1]], c_sexpr(n[2], row))
     if k == 'm':
-        return '(EMM %s %s %s)' % ('MMax' if n[1] == 'max' else 'MMin', c_expr(n[2], row), c_expr(n[3], row))
+        return '(SMM %s %s %s)' % ('MMax' if n[1] == 'max' else 'MMin', c_sexpr(n[2], row), c_sexpr(n[3], row))
     raise AssertionError(n)
+
+
+def c_expr(n, row):
+    """FSem.expr term = FParse.to_expr of the tree of the TEXT (paren_tree), the decimal literals given their binary64 / binary32
+    values through a table — the same tree the text part of K compares the parsed Fortran statement with."""
+    import numpy as np
+    t = paren_tree(n)
+    decs = sorted({nd[1] for nd in walk(t) if nd[0] == 'd'})
+    tab = lib.clist('(%s, %d%%nat, %s, %s)' % (lib.cZ(dec_parts(x)[0]), dec_parts(x)[1], lib.cfloat(lib.fhex(float(x))),
+                                               lib.cfloat(lib.fhex(float(np.float32(x))))) for x in decs)
+    return '(to_expr float (dlook poison %s) %s)' % (tab, c_sexpr(t, row))
 
 
 def c_state(vals, status, iters):
@@ -1025,6 +1115,29 @@ let rec pos_of_int n = if n = 1 then XH else if n land 1 = 0 then XO (pos_of_int
 let z_of_int n = if n = 0 then Z0 else if n > 0 then Zpos (pos_of_int n) else Zneg (pos_of_int (- n))
 let rec int_of_pos = function XH -> 1 | XO p -> 2 * int_of_pos p | XI p -> 2 * int_of_pos p + 1
 let int_of_z = function Z0 -> 0 | Zpos p -> int_of_pos p | Zneg p -> - (int_of_pos p)
+let rec rd toks = match toks with
+  | "v" :: i :: k :: r -> (SVar (nat_of_int (int_of_string i), z_of_int (int_of_string k)), r)
+  | "i" :: z :: r -> (SInt (z_of_int (int_of_string z)), r)
+  | "d" :: m :: s :: r -> (SDec (z_of_int (int_of_string m), nat_of_int (int_of_string s)), r)
+  | "n" :: r -> let (a, r1) = rd r in (SNeg a, r1)
+  | "p" :: r -> let (a, r1) = rd r in (SPar a, r1)
+  | "a" :: r -> let (a, r1) = rd r in (SAbs a, r1)
+  | "e" :: r -> let (a, r1) = rd r in (SExp a, r1)
+  | "l" :: r -> let (a, r1) = rd r in (SLog a, r1)
+  | "b" :: op :: r -> let (a, r1) = rd r in let (b, r2) = rd r1 in
+      (SBin ((match op with "+" -> OAdd | "-" -> OSub | "*" -> OMul | "/" -> ODiv | "^" -> OPow | _ -> failwith "op"), a, b), r2)
+  | "M" :: r -> let (a, r1) = rd r in let (b, r2) = rd r1 in (SMM (MMax, a, b), r2)
+  | "m" :: r -> let (a, r1) = rd r in let (b, r2) = rd r1 in (SMM (MMin, a, b), r2)
+  | _ -> failwith "tree"
+let rec show = function
+  | SVar (i, k) -> Printf.sprintf "v%d@%d" (int_of_nat i) (int_of_z k)
+  | SInt z -> string_of_int (int_of_z z)
+  | SDec (m, s) -> Printf.sprintf "%de-%d" (int_of_z m) (int_of_nat s)
+  | SNeg a -> "(neg " ^ show a ^ ")" | SPar a -> "(par " ^ show a ^ ")"
+  | SAbs a -> "(abs " ^ show a ^ ")" | SExp a -> "(exp " ^ show a ^ ")" | SLog a -> "(log " ^ show a ^ ")"
+  | SBin (o, a, b) -> "(" ^ (match o with OAdd -> "+" | OSub -> "-" | OMul -> "*" | ODiv -> "/" | OPow -> "**") ^ " " ^ show a ^ " " ^ show b ^ ")"
+  | SMM (m, a, b) -> "(" ^ (match m with MMax -> "max" | MMin -> "min") ^ " " ^ show a ^ " " ^ show b ^ ")"
+let unesc s = String.map (fun c -> if c = '\030' then '\n' else c) s
 let fields f = if f = "" then [] else String.split_on_char '\031' f
 let esc s = String.map (fun c -> if c = '\n' then '\030' else c) s
 let strs f = List.map explode (fields f)
@@ -1045,6 +1158,12 @@ let () =
         | ["X"; names; x] -> (match index_of (strs names) (explode x) with Some n -> "=" ^ string_of_int (int_of_nat n) | None -> "!None")
         | ["L"; l; mn] -> "=" ^ string_of_int (int_of_z (lag_of (List.map z_of_int (ints l)) (z_of_int (int_of_string mn))))
         | ["M"; l; mn] -> "=" ^ string_of_int (int_of_z (lead_of (List.map z_of_int (ints l)) (z_of_int (int_of_string mn))))
+        | ["P"; blk; row; tree] ->
+            let (t, _) = rd (List.filter (fun x -> x <> "") (String.split_on_char ' ' tree)) in
+            if block_matches (explode (unesc blk)) (nat_of_int (int_of_string row)) t then "=true"
+            else "=false parsed: " ^ (match parse_stmt (stmt_of_block (explode (unesc blk))) with
+                                      | Some (r, e) -> string_of_int (int_of_nat r) ^ " " ^ show e
+                                      | None -> "no parse of " ^ implode (stmt_of_block (explode (unesc blk)))) ^ " expected: " ^ show (s_regroup t)
         | ["I"; k] -> "=" ^ implode (idx_text (z_of_int (int_of_string k)))
         | ["T"; num; k] -> "=" ^ implode (term_f (nat_of_int (int_of_string num)) (idx_text (z_of_int (int_of_string k))))
         | ["U"; num; k] -> "=" ^ implode (explode "solved_values(" @ explode num @ explode ", " @ f_idx_text (z_of_int (int_of_string k)) @ explode ")")
@@ -1055,8 +1174,9 @@ let () =
   with End_of_file -> ()
 '''
 EXTRACT_V = '''From Coq Require Import ExtrOcamlBasic ExtrOcamlString.
-Require Import Fsic.Fortran.FText.
-Extraction "ftext.ml" rewrite segments stream block int_array_def wrapped_def number_of index_of lag_of lead_of idx_text f_idx_text term_f.
+Require Import Fsic.Fortran.FText Fsic.Fortran.FParse.
+Extraction "ftext.ml" rewrite segments stream block int_array_def wrapped_def number_of index_of lag_of lead_of idx_text f_idx_text term_f
+           block_matches parse_stmt stmt_of_block s_regroup.
 '''
 
 
@@ -1064,7 +1184,7 @@ def driver_path():
     """Builds (when missing or older than FText.vo) the extracted text model + driver under lib.COQ/Extract/C07/."""
     d = os.path.join(lib.COQ, 'Extract', 'C07')
     exe = os.path.join(d, 'driver')
-    vo = os.path.join(lib.COQ, 'Fortran', 'FText.vo')
+    vo = max((os.path.join(lib.COQ, 'Fortran', f) for f in ('FText.vo', 'FParse.vo')), key=lambda q: os.path.getmtime(q) if os.path.exists(q) else 0)
     stamp = os.path.join(d, 'driver.ml')
     if os.path.exists(exe) and os.path.exists(vo) and os.path.getmtime(exe) >= os.path.getmtime(vo) and os.path.exists(stamp) and open(stamp).read() == DRIVER_ML:
         return exe, None
@@ -1150,6 +1270,13 @@ def text_requests(case, o):
             rq.append(('?', '=never', 'no equation block for %s' % lhs))
             continue
         eq, code = by_lhs[lhs]
+        if o.get('maxword', 0) <= WRAP_WIDTH:
+            # THE TIE text -> tree: the statement the compiler reads (continuation lines joined) parses, by the Fortran expression
+            # grammar of FParse.v, to the regrouped tree of the text — the tree the float part of K evaluates
+            blk_raw = [b_ for e_, b_ in zip(o['equations'], o['blocks']) if e_ == eq][0]
+            rowmap = {nm_: i_ for i_, nm_ in enumerate(o['names'])}
+            rq.append(('P\t%s\t%d\t%s' % (blk_raw.replace('\n', '\x1e'), rowmap[lhs], s_prefix(paren_tree(rhs), rowmap)), '=true',
+                       'generated statement for %s parses to the regrouped tree' % lhs))
         terms = {(lhs, 0)} | {(nd[1], nd[2] if nd[0] == 'v' else 0) for nd in walk(rhs) if nd[0] in ('v', 'p', 'e')}
         for name, k in sorted(terms):
             num = o['names'].index(name) + 1
@@ -1274,6 +1401,11 @@ def oracle(case, obs):
         else:
             bad('compile|other', 'generated Fortran does not compile: %s ; script: %s' % (obs['compile'][:120], case['script'][:200]))
         return fails
+    # ---- a copy of the Fortran-engine instance solves identically (same ENGINE; the original is not touched)
+    fc = obs.get('fcopy')
+    if fc is not None and not (fc['same'] and fc['engine'] and fc['orig_untouched']):
+        bad('copy|fortran-engine-copy-differs', 'copy() of a FortranEngine instance: same observation %s, same ENGINE %s, original untouched %s (copy returned %s)'
+            % (fc['same'], fc['engine'], fc['orig_untouched'], fc['out']))
     # ---- hypotheses of the statement
     if o['errors'] not in ERRMODES or o['failures'] not in ('raise', 'ignore'):
         return fails                                       # outside the option lattice both engines document
@@ -1416,7 +1548,12 @@ def bucket(case, obs):
     out = obs['py']['out']
     res = out[1] if out[0] == 'raise' else 'ret'
     fo = 'nocompile' if obs['f'] is None else (obs['f']['out'][1] if obs['f']['out'][0] == 'raise' else 'ret')
-    return '/'.join([case['prog']['family'], case['entry'], case['opts']['errors'], 'py:' + str(res), 'f:' + str(fo)])
+    mix = ''
+    if case['entry'] == 'solve' and obs['f'] is not None:
+        kinds = ''.join(sorted(set(obs['f']['status']) - {'-'}))
+        if len(kinds) > 1:
+            mix = '/statuses:' + kinds
+    return '/'.join([case['prog']['family'], case['entry'], case['opts']['errors'], 'py:' + str(res), 'f:' + str(fo)]) + mix
 
 
 def shrink_candidates(case):
